@@ -6,7 +6,7 @@ extracted from MIR, is evaluated on grid witnesses and compared with its definit
 property depends on."""
 import itertools
 import math
-from ..symex import Symex, Unanalysable
+from ..symex import Symex, Unanalysable, show, show_pc
 from ..numeval import NumEval, seg_dist
 from ..evalterm import NoModel, Enum
 
@@ -251,3 +251,86 @@ def sequence_tables(rep, F, rule):
     except (KeyError, Unanalysable, Exception) as e:
         rep.bad(rule, "seq:is_closed:unanalysable", str(e))
     rep.floor(rule, "sequence tables", n, 11)
+
+
+def collection_tables(rep, F, rule):
+    """MultiPoint / MultiLineString / MultiPolygon / GeometryCollection / LineString as containers, on concrete member lists (an empty member, a
+    polygon with an empty exterior but a hole, and a repeated member included): From<Vec<_>>, FromIterator, From<single member>, new(..) and
+    into_iter / iter keep every member, in order, unchanged - nothing is filtered, merged or de-duplicated on the way in or out."""
+    from ..citer import drain_value, NotConcrete
+    from .mapcoords import norm, ls, poly, pt, vec, C, geom
+    rep.rule(rule, "containers on concrete member lists (empty members, a polygon with an empty exterior, repeated members): From<Vec>, FromIterator, From<member>, new and into_iter / iter keep every member in order, unchanged")
+    pe = poly([], [["h", "i", "j", "h"]])
+    K = lambda x, y: ("adt", GT + "coord::Coord", "Coord", (("const", x), ("const", y)))
+    members = {
+        "MultiPoint": ("multi_point::MultiPoint", [pt("p"), pt("q"), pt("p")]),
+        "MultiLineString": ("multi_line_string::MultiLineString", [ls(["a", "b"]), ls([]), ls(["a", "b"]), ls(["c"])]),
+        "MultiPolygon": ("multi_polygon::MultiPolygon", [poly(["a", "b", "c", "a"], []), pe, poly([], []), poly(["d", "e", "g", "d"], [["k", "l", "m", "k"]])]),
+        "GeometryCollection": ("geometry_collection::GeometryCollection", [geom("Point", pt("p")), geom("LineString", ls([])), geom("Polygon", pe), geom("Point", pt("p"))]),
+        # concrete coordinates, so that comparisons between them are decided: a a b a c c
+        "LineString": ("line_string::LineString", [K(0, 0), K(0, 0), K(1, 0), K(0, 0), K(2, 5), K(2, 5)]),
+    }
+
+    def m_id(ex_, st, call, args):
+        yield st, "ret", args[0]
+
+    def run(fn, args):
+        ex = Symex(F, concrete_iters=True, loop_bound=12, inline_crates=("geo_types",), max_depth=12, max_paths=2000, budget_s=20)
+        ex.resolve_by_receiver = True
+        ex.fold_ground_eq = True
+        ex.models["core::convert::Into::into"] = m_id       # the members already have the member type
+        ex.models["core::convert::From::from"] = m_id
+        ps = [p for p in ex.run(fn, args=args) if p.kind != "cut"]
+        if len(ps) != 1 or ps[0].kind != "ret" or ps[0].pc:
+            raise Unanalysable("%d paths on a concrete member list (%s)" % (len(ps), "; ".join(show_pc(p.pc)[:80] for p in ps[:2])))
+        return ps[0].ret
+    n = 0
+    for name, (ty, ms) in members.items():
+        adt = GT + ty
+        whole = ("adt", adt, name, (vec(ms),))
+        want_all = [norm(m) for m in ms]
+        cases = [
+            ("From<Vec>", r"^<%s<T> as core::convert::From<alloc::vec::Vec<\w+>>>::from$" % adt, [vec(ms)], "value", want_all),
+            ("FromIterator", r"^<%s<T> as core::iter::traits::collect::FromIterator<\w+>>::from_iter$" % adt, [vec(ms)], "value", want_all),
+            ("new", r"^%s::<T>::new$" % adt, [vec(ms)], "value", want_all),
+            ("into_iter", r"^<%s<T> as core::iter::traits::collect::IntoIterator>::into_iter$" % adt, [whole], "drain", want_all),
+            ("iter", r"^%s::<T>::iter$" % adt, [("&", whole)], "drain", want_all),
+        ]
+        if name != "LineString":
+            cases.append(("From<member>", r"^<%s<T> as core::convert::From<\w+>>::from$" % adt, [ms[1]], "value", [norm(ms[1])]))
+        for key, pat, args, how, want in cases:
+            k = "coll:%s:%s" % (name, key)
+            try:
+                fn = F.one(pat, crates=("geo_types",))
+            except KeyError as e:
+                if key in ("From<Vec>", "iter", "new"):
+                    continue           # not every container has every constructor
+                rep.bad(rule, k + ":anchor", str(e))
+                continue
+            try:
+                r = run(fn, args)
+                if how == "drain":
+                    got = [norm(it) for it in drain_value(F, r)]
+                else:
+                    v = r
+                    while v[0] in ("&", "deref"):
+                        v = v[1]
+                    if not (v[0] == "adt" and v[2] == name and len(v[3]) == 1):
+                        raise Unanalysable("the result is not a %s value: %s" % (name, show(v)[:80]))
+                    inner = v[3][0]
+                    while inner[0] == "call" and inner[1] == "vec!":
+                        inner = inner[2][0]
+                    if inner[0] != "array":
+                        raise Unanalysable("the member list is not concrete: %s" % show(inner)[:80])
+                    got = [norm(x) for x in inner[1]]
+            except (Unanalysable, NotConcrete) as e:
+                if key == "new" and "arity mismatch" in str(e):
+                    continue           # a constructor without arguments
+                rep.bad(rule, k + ":unanalysable", str(e), where=fn.loc())
+                continue
+            if got == want:
+                n += 1
+                rep.ok(rule, k)
+            else:
+                rep.bad(rule, k, "%s %s of the members [%s] gives [%s]" % (name, key, "; ".join(want), "; ".join(got)), where=fn.loc())
+    rep.floor(rule, "container tables", n, 26)
